@@ -6,19 +6,447 @@ import Fundraising.Proofs.VestingLemmas
 -/
 namespace Fundraising
 
+/-! ### generic list lemmas -/
+
+theorem noDup_iff {α : Type} [DecidableEq α] (l : List α) : noDup l = true ↔ l.Nodup := by
+  induction l with
+  | nil => simp [noDup]
+  | cons x xs ih => simp [noDup, ih, List.nodup_cons]
+
+theorem foldlM_modifyView {β : Type} (tgt : β → Nat) (f : β → AView → AView) :
+    ∀ (l : List β) (init : List AView), (∀ p ∈ l, tgt p < init.length) →
+      l.foldlM (fun vs p => modifyView vs (tgt p) (f p)) init =
+        some (init.mapIdx (fun i v => (l.filter (fun p => tgt p == i)).foldl (fun v p => f p v) v)) := by
+  intro l
+  induction l with
+  | nil =>
+    intro init _
+    simp only [List.foldlM_nil, List.filter_nil, List.foldl_nil]
+    congr 1
+    apply List.ext_getElem?
+    intro i
+    simp [List.getElem?_mapIdx]
+  | cons p rest ih =>
+    intro init h
+    have hk : tgt p < init.length := h p (by simp)
+    rw [List.foldlM_cons]
+    have hm : modifyView init (tgt p) (f p) = some (init.set (tgt p) (f p init[tgt p])) := by
+      simp only [modifyView, List.getElem?_eq_getElem hk]
+    rw [hm]
+    show (rest.foldlM _ _) = _
+    rw [ih _ (by intro q hq; simpa using h q (by simp [hq]))]
+    congr 1
+    apply List.ext_getElem?
+    intro i
+    simp only [List.getElem?_mapIdx, List.getElem?_set]
+    by_cases hi : tgt p = i
+    · subst hi
+      simp [hk]
+    · simp [hi]
+
+theorem filter_flatMap_idx {α β : Type} (key : α → Nat) (g : α → List β) (tgt : β → Nat) :
+    ∀ (vs : List α) (k0 : Nat), (∀ j v, vs[j]? = some v → key v = k0 + j) →
+      (∀ v ∈ vs, ∀ x ∈ g v, tgt x = key v) →
+      ∀ j v, vs[j]? = some v → (vs.flatMap g).filter (fun x => tgt x == k0 + j) = g v := by
+  intro vs
+  induction vs with
+  | nil => intro k0 _ _ j v h; simp at h
+  | cons w ws ih =>
+    intro k0 hkey hg j v hj
+    have hw : key w = k0 := by simpa using hkey 0 w (by simp)
+    have hkey' : ∀ j v, ws[j]? = some v → key v = (k0 + 1) + j := by
+      intro j v h
+      have := hkey (j+1) v (by simpa using h)
+      omega
+    have hg' : ∀ v ∈ ws, ∀ x ∈ g v, tgt x = key v := fun v hv => hg v (by simp [hv])
+    rw [List.flatMap_cons, List.filter_append]
+    cases j with
+    | zero =>
+      have : v = w := by simpa using hj.symm
+      subst this
+      have h1 : (g v).filter (fun x => tgt x == k0 + 0) = g v := by
+        rw [List.filter_eq_self]
+        intro x hx
+        simp [hg v (by simp) x hx, hw]
+      have h2 : (ws.flatMap g).filter (fun x => tgt x == k0 + 0) = [] := by
+        rw [List.filter_eq_nil_iff]
+        intro x hx
+        obtain ⟨b, hb, hxb⟩ := List.mem_flatMap.mp hx
+        obtain ⟨n, hn⟩ := List.getElem?_of_mem hb
+        have := hkey' n b hn
+        have := hg' b hb x hxb
+        simp; omega
+      rw [h1, h2]; simp
+    | succ j =>
+      have hj' : ws[j]? = some v := by simpa using hj
+      have h1 : (g w).filter (fun x => tgt x == k0 + (j+1)) = [] := by
+        rw [List.filter_eq_nil_iff]
+        intro x hx
+        have := hg w (by simp) x hx
+        simp; omega
+      have := ih (k0+1) hkey' hg' j v hj'
+      rw [h1, show k0 + (j+1) = k0 + 1 + j by omega, this]; simp
+
+/-! ### per-view folds of `InitGenesis` -/
+
+theorem upsertBy_append_last {α : Type} (key : α → Int) (x : α) :
+    ∀ l : List α, (∀ y ∈ l, key y < key x) → upsertBy key x l = l ++ [x] := by
+  intro l
+  induction l with
+  | nil => intro _; rfl
+  | cons y ys ih =>
+    intro h
+    have hy : key y < key x := h y (by simp)
+    simp only [upsertBy]
+    rw [if_neg (by omega), if_neg (by omega), ih (fun z hz => h z (by simp [hz]))]
+    rfl
+
+theorem foldl_upsertBy_sorted {α : Type} (key : α → Int) :
+    ∀ (rest pre : List α), ((pre ++ rest).map key).Pairwise (· < ·) →
+      rest.foldl (fun acc x => upsertBy key x acc) pre = pre ++ rest := by
+  intro rest
+  induction rest with
+  | nil => intro pre _; simp
+  | cons x xs ih =>
+    intro pre h
+    have hx : ∀ y ∈ pre, key y < key x := by
+      intro y hy
+      rw [List.map_append, List.pairwise_append] at h
+      exact h.2.2 (key y) (List.mem_map_of_mem hy) (key x) (by simp)
+    rw [List.foldl_cons, upsertBy_append_last key x pre hx, ih (pre ++ [x]) (by simpa using h)]
+    simp
+
+def genSetAllowed (p : Nat × Allowed) (v : AView) : AView := { v with allowed := setAllowed v.allowed p.2 }
+def genAppendBid (b : Bid) (v : AView) : AView :=
+  let id := v.bidSeq + 1
+  { v with bids := v.bids ++ [{ b with id := id }], bidSeq := id }
+def genSetVQ (q : VQ) (v : AView) : AView := { v with vqs := setVQ v.vqs q }
+def genFinish (v : AView) : AView :=
+  if v.a.type = .batch then { v with matchedLen := countMatched v.bids } else v
+
+theorem foldl_fA (l : List (Nat × Allowed)) : ∀ v : AView,
+    l.foldl (fun v p => genSetAllowed p v) v =
+      { v with allowed := (l.map (·.2)).foldl (fun acc x => setAllowed acc x) v.allowed } := by
+  induction l with
+  | nil => intro v; rfl
+  | cons p ps ih => intro v; simp only [List.foldl_cons, ih, List.map_cons]; rfl
+
+theorem foldl_fQ (l : List VQ) : ∀ v : AView,
+    l.foldl (fun v q => genSetVQ q v) v =
+      { v with vqs := l.foldl (fun acc x => setVQ acc x) v.vqs } := by
+  induction l with
+  | nil => intro v; rfl
+  | cons p ps ih => intro v; simp only [List.foldl_cons, ih]; rfl
+
+theorem foldl_fB (l : List Bid) : ∀ v : AView,
+    l.map (·.id) = List.range' (v.bidSeq + 1) l.length →
+    l.foldl (fun v b => genAppendBid b v) v =
+      { v with bids := v.bids ++ l, bidSeq := v.bidSeq + l.length } := by
+  induction l with
+  | nil => intro v _; simp
+  | cons b bs ih =>
+    intro v h
+    simp only [List.map_cons, List.length_cons, List.range'_succ, List.cons.injEq] at h
+    rw [List.foldl_cons, ih (genAppendBid b v) (by simpa [genAppendBid] using h.2)]
+    have : ({ b with id := v.bidSeq + 1 } : Bid) = b := by
+      cases b; simp only [Bid.mk.injEq, and_true, true_and]; exact h.1.symm
+    simp only [genAppendBid, this, List.length_cons, List.append_assoc, List.singleton_append]
+    congr 1; omega
+
+theorem sched_sorted (a : Auction) (h : AuctionWF a) :
+    (a.schedules.map (·.release)).Pairwise (· < ·) := by
+  by_cases hne : a.schedules = []
+  · simp [hne]
+  · exact (validSchedules_spec _ _ hne h.sched).2.2
+
+theorem vqs_sorted (i : Nat) (v : AView) (h : ViewWF i v) :
+    (v.vqs.map (·.release)).Pairwise (· < ·) := by
+  cases hs : v.a.status with
+  | standby => simp [h.vqsNone (by simp [hs])]
+  | started => simp [h.vqsNone (by simp [hs])]
+  | cancelled => simp [h.vqsNone (by simp [hs])]
+  | vesting => rw [h.vqsSome (by simp [hs])]; exact sched_sorted _ h.auction
+  | finished => rw [h.vqsSome (by simp [hs])]; exact sched_sorted _ h.auction
+
+theorem rebuild_view (i : Nat) (v : AView) (h : ViewWF i v) :
+    genFinish (v.vqs.foldl (fun v q => genSetVQ q v)
+      (v.bids.foldl (fun v b => genAppendBid b v)
+        ((v.allowed.map (fun x => (v.a.id, x))).foldl (fun v p => genSetAllowed p v) ({ a := v.a } : AView)))) = v := by
+  rw [foldl_fA]
+  simp only [List.map_map, Function.comp_def, List.map_id']
+  have hA : v.allowed.foldl (fun acc x => setAllowed acc x) [] = v.allowed := by
+    have := foldl_upsertBy_sorted (fun a : Allowed => (a.bidder : Int)) v.allowed [] (by
+      simp only [List.nil_append]
+      have := h.allowedSorted
+      rw [List.pairwise_map] at this ⊢
+      exact this.imp (by intro a b hab; unfold Acc at *; omega))
+    simpa [setAllowed] using this
+  rw [hA]
+  rw [foldl_fB _ _ (by
+    simp only [Nat.zero_add]
+    rw [h.bidIds, List.range'_eq_map_range]
+    apply List.map_congr_left; intro a _; omega)]
+  rw [foldl_fQ]
+  have hQ : v.vqs.foldl (fun acc x => setVQ acc x) [] = v.vqs := by
+    have := foldl_upsertBy_sorted (fun q : VQ => q.release) v.vqs [] (by
+      simpa using vqs_sorted i v h)
+    simpa [setVQ] using this
+  simp only [hQ, List.nil_append, Nat.zero_add]
+  unfold genFinish
+  cases v with
+  | mk a allowed bids vqs matchedLen bidSeq =>
+    simp only at h ⊢
+    have h1 := h.bidSeq
+    have h2 := h.matchedLenBatch
+    have h3 := h.matchedLenFixed
+    simp only at h1 h2 h3
+    cases ht : a.type with
+    | batch => simp [h2 ht, h1]
+    | fixed => simp [h3 ht, h1]
+
+/-! ### import ∘ export -/
+
+theorem filter_flatMap_views (vs : List AView) {β : Type} (g : AView → List β) (tgt : β → Nat)
+    (hkey : ∀ (j : Nat) (v : AView), vs[j]? = some v → v.a.id = j)
+    (hg : ∀ v ∈ vs, ∀ x ∈ g v, tgt x = v.a.id) (i : Nat) (v : AView) (hv : vs[i]? = some v) :
+    (vs.flatMap g).filter (fun x => tgt x == i) = g v := by
+  have := filter_flatMap_idx (fun v : AView => v.a.id) g tgt vs 0
+    (by intro j v h; simpa using hkey j v h) hg i v hv
+  simpa using this
+
+theorem tgt_lt_of_flatMap (vs : List AView) {β : Type} (g : AView → List β) (tgt : β → Nat)
+    (hkey : ∀ (j : Nat) (v : AView), vs[j]? = some v → v.a.id = j)
+    (hg : ∀ v ∈ vs, ∀ x ∈ g v, tgt x = v.a.id) : ∀ x ∈ vs.flatMap g, tgt x < vs.length := by
+  intro x hx
+  obtain ⟨b, hb, hxb⟩ := List.mem_flatMap.mp hx
+  obtain ⟨n, hn⟩ := List.getElem?_of_mem hb
+  rw [hg b hb x hxb, hkey n b hn]
+  exact (List.getElem?_eq_some_iff.mp hn).1
+
+theorem initGenesis_eq (g : Genesis) : initGenesis g =
+    ((g.allowed.foldlM (fun vs p => modifyView vs p.1 (genSetAllowed p))
+        (g.auctions.zipIdx.map (fun p => ({ a := { p.1 with id := p.2 } } : AView)))).bind fun v1 =>
+      (g.bids.foldlM (fun vs b => modifyView vs b.auction (genAppendBid b)) v1).bind fun v2 =>
+      (g.vqs.foldlM (fun vs q => modifyView vs q.auction (genSetVQ q)) v2).bind fun v3 =>
+      some (v3.map genFinish)) := rfl
+
+theorem import_export_aux (s : Core) (h : WF s) : initGenesis (exportGenesis s) = some s.views := by
+  have hkey : ∀ (j : Nat) (v : AView), s.views[j]? = some v → v.a.id = j := fun j v hv => (h.views j v hv).id
+  have hwf : ∀ v ∈ s.views, ∃ j, ViewWF j v := by
+    intro v hv
+    obtain ⟨n, hn⟩ := List.getElem?_of_mem hv
+    exact ⟨n, h.views n v hn⟩
+  have hgA : ∀ v ∈ s.views, ∀ x ∈ v.allowed.map (fun x => (v.a.id, x)), x.1 = v.a.id := by
+    intro v _ x hx
+    obtain ⟨y, _, rfl⟩ := List.mem_map.mp hx
+    rfl
+  have hgB : ∀ v ∈ s.views, ∀ b ∈ v.bids, b.auction = v.a.id := by
+    intro v hv b hb
+    obtain ⟨j, hj⟩ := hwf v hv
+    exact (hj.bids b hb).auction
+  have hgQ : ∀ v ∈ s.views, ∀ q ∈ v.vqs, q.auction = v.a.id := by
+    intro v hv q hq
+    obtain ⟨j, hj⟩ := hwf v hv
+    rw [hj.id]; exact (hj.vqsWF q hq).2.2.2
+  -- step 1
+  have h0 : ((s.views.map (·.a)).zipIdx.map (fun p => ({ a := { p.1 with id := p.2 } } : AView)))
+      = s.views.map (fun v => ({ a := v.a } : AView)) := by
+    apply List.ext_getElem?
+    intro i
+    simp only [List.getElem?_map, List.getElem?_zipIdx]
+    cases hv : s.views[i]? with
+    | none => simp
+    | some v =>
+      have := hkey i v hv
+      simp only [Option.map_some, Nat.zero_add]
+      rw [← this]
+  have e1 := foldlM_modifyView (fun p : Nat × Allowed => p.1) genSetAllowed
+    (s.views.flatMap (fun v => v.allowed.map (fun x => (v.a.id, x))))
+    (s.views.map (fun v => ({ a := v.a } : AView)))
+    (by simpa using tgt_lt_of_flatMap s.views _ _ hkey hgA)
+  have e2 := fun (init : List AView) (hl : init.length = s.views.length) => foldlM_modifyView (fun b : Bid => b.auction) genAppendBid
+    (s.views.flatMap (·.bids)) init
+    (by rw [hl]; exact tgt_lt_of_flatMap s.views _ _ hkey hgB)
+  have e3 := fun (init : List AView) (hl : init.length = s.views.length) => foldlM_modifyView (fun q : VQ => q.auction) genSetVQ
+    (s.views.flatMap (·.vqs)) init
+    (by rw [hl]; exact tgt_lt_of_flatMap s.views _ _ hkey hgQ)
+  rw [initGenesis_eq]
+  simp only [exportGenesis]
+  rw [h0, e1, Option.bind_some, e2 _ (by simp), Option.bind_some, e3 _ (by simp), Option.bind_some]
+  congr 1
+  apply List.ext_getElem?
+  intro i
+  simp only [List.getElem?_map, List.getElem?_mapIdx]
+  cases hv : s.views[i]? with
+  | none => simp
+  | some v =>
+    simp only [Option.map_some]
+    rw [filter_flatMap_views s.views _ _ hkey hgA i v hv,
+      filter_flatMap_views s.views _ _ hkey hgB i v hv,
+      filter_flatMap_views s.views _ _ hkey hgQ i v hv]
+    rw [rebuild_view i v (h.views i v hv)]
+
+/-! ### validate ∘ export -/
+
+theorem nodup_map_flatMap {α β γ : Type} (key : α → Nat) (g : α → List β) (k : β → Nat × γ) :
+    ∀ vs : List α, vs.Pairwise (fun a b => key a < key b) →
+      (∀ v ∈ vs, ∀ x ∈ g v, (k x).1 = key v) →
+      (∀ v ∈ vs, ((g v).map k).Nodup) → ((vs.flatMap g).map k).Nodup := by
+  intro vs
+  induction vs with
+  | nil => intro _ _ _; simp
+  | cons w ws ih =>
+    intro hp hg hnd
+    rw [List.pairwise_cons] at hp
+    rw [List.flatMap_cons, List.map_append, List.Nodup, List.pairwise_append]
+    refine ⟨hnd w (by simp), ih hp.2 (fun v hv => hg v (by simp [hv])) (fun v hv => hnd v (by simp [hv])), ?_⟩
+    intro a ha b hb hab
+    obtain ⟨x, hx, rfl⟩ := List.mem_map.mp ha
+    obtain ⟨y, hy, rfl⟩ := List.mem_map.mp hb
+    obtain ⟨v, hv, hyv⟩ := List.mem_flatMap.mp hy
+    have h1 := hg w (by simp) x hx
+    have h2 := hg v (by simp [hv]) y hyv
+    have h3 := hp.1 v hv
+    rw [hab] at h1
+    omega
+
+theorem nodup_pair_of_pairwise {β γ : Type} (r : γ → γ → Prop) (hr : ∀ a, ¬ r a a) (f : β → γ)
+    (c : β → Nat) (l : List β) (h : (l.map f).Pairwise r) :
+    (l.map (fun x => (c x, f x))).Nodup := by
+  rw [List.pairwise_map] at h
+  rw [List.Nodup, List.pairwise_map]
+  refine h.imp ?_
+  intro a b hab heq
+  have h2 : f a = f b := congrArg Prod.snd heq
+  rw [h2] at hab
+  exact hr _ hab
+
+theorem views_pairwise (s : Core) (h : WF s) : s.views.Pairwise (fun a b => a.a.id < b.a.id) := by
+  rw [List.pairwise_iff_getElem]
+  intro i j hi hj hij
+  rw [(h.views i _ (List.getElem?_eq_getElem hi)).id, (h.views j _ (List.getElem?_eq_getElem hj)).id]
+  exact hij
+
+theorem auction_validate (a : Auction) (h : AuctionWF a) : a.validate = true := by
+  unfold Auction.validate
+  have h1 := h.auctioneer
+  have h2 := h.pricePos
+  have h3 := h.sellPos
+  have h4 := h.denomNe
+  have h5 := h.sellDenomOk
+  have h6 := h.payDenomOk
+  have h7 := h.sched
+  have h8 := h.endNonempty
+  cases he : a.endTimes with
+  | nil => exact absurd he h8
+  | cons e es =>
+    rw [he] at h7
+    simp only [List.headD_cons] at h7
+    simp [h1, h2, h5, h6, h7, validCoin, h4, Int.le_of_lt h3]
+
+theorem export_validates_aux (s : Core) (h : WF s) : validateGenesis (exportGenesis s) = true := by
+  have hwf : ∀ v ∈ s.views, ∃ j, ViewWF j v := by
+    intro v hv
+    obtain ⟨n, hn⟩ := List.getElem?_of_mem hv
+    exact ⟨n, h.views n v hn⟩
+  have hpw := views_pairwise s h
+  unfold validateGenesis exportGenesis
+  simp only [Bool.and_eq_true, noDup_iff]
+  refine ⟨⟨⟨⟨⟨⟨⟨⟨⟨?_, ?_⟩, ?_⟩, ?_⟩, ?_⟩, ?_⟩, ?_⟩, ?_⟩, h.params.1⟩, h.params.2⟩
+  · -- allowed: no duplicates
+    apply nodup_map_flatMap (fun v : AView => v.a.id) _ _ _ hpw
+    · intro v _ x hx
+      obtain ⟨y, _, rfl⟩ := List.mem_map.mp hx
+      rfl
+    · intro v hv
+      obtain ⟨j, hj⟩ := hwf v hv
+      rw [List.map_map]
+      exact nodup_pair_of_pairwise (· < ·) (fun a => Nat.lt_irrefl a) (fun x : Allowed => x.bidder)
+        (fun _ => v.a.id) v.allowed hj.allowedSorted
+  · -- allowed: valid
+    rw [List.all_eq_true]
+    intro p hp
+    obtain ⟨v, hv, hpv⟩ := List.mem_flatMap.mp hp
+    obtain ⟨x, hx, rfl⟩ := List.mem_map.mp hpv
+    obtain ⟨j, hj⟩ := hwf v hv
+    have := hj.caps x hx
+    simp [this.1, this.2]
+  · -- vqs: no duplicates
+    apply nodup_map_flatMap (fun v : AView => v.a.id) _ _ _ hpw
+    · intro v hv q hq
+      obtain ⟨j, hj⟩ := hwf v hv
+      rw [hj.id]; exact (hj.vqsWF q hq).2.2.2
+    · intro v hv
+      obtain ⟨j, hj⟩ := hwf v hv
+      exact nodup_pair_of_pairwise (· < ·) (fun a => Int.lt_irrefl a) (fun q : VQ => q.release)
+        (fun q => q.auction) v.vqs (vqs_sorted j v hj)
+  · -- vqs: valid
+    rw [List.all_eq_true]
+    intro q hq
+    obtain ⟨v, hv, hqv⟩ := List.mem_flatMap.mp hq
+    obtain ⟨j, hj⟩ := hwf v hv
+    obtain ⟨h1, h2, h3, _⟩ := hj.vqsWF q hqv
+    simp [validCoin, h1, h2, h3, hj.auction.auctioneer, hj.auction.payDenomOk]
+  · -- bids: no duplicates
+    apply nodup_map_flatMap (fun v : AView => v.a.id) _ _ _ hpw
+    · intro v hv b hb
+      obtain ⟨j, hj⟩ := hwf v hv
+      exact (hj.bids b hb).auction
+    · intro v hv
+      obtain ⟨j, hj⟩ := hwf v hv
+      refine nodup_pair_of_pairwise (· ≠ ·) (fun a h => h rfl) (fun b : Bid => b.id)
+        (fun b => b.auction) v.bids ?_
+      rw [hj.bidIds]
+      have : ((List.range v.bids.length).map (· + 1)) = List.range' 1 v.bids.length := by
+        rw [List.range'_eq_map_range]
+        apply List.map_congr_left; intro a _; omega
+      rw [this]
+      exact List.nodup_range'
+  · -- bids: valid
+    rw [List.all_eq_true]
+    intro b hb
+    obtain ⟨v, hv, hbv⟩ := List.mem_flatMap.mp hb
+    obtain ⟨j, hj⟩ := hwf v hv
+    have hb := hj.bids b hbv
+    have hd : validDenom b.denom = true := by
+      cases ht : v.a.type with
+      | fixed =>
+        rcases (hb.fixed ht).2.2 with e | e <;> rw [e]
+        · exact hj.auction.payDenomOk
+        · exact hj.auction.sellDenomOk
+      | batch =>
+        rcases hb.batch ht with ⟨_, e⟩ | ⟨_, e⟩ <;> rw [e]
+        · exact hj.auction.payDenomOk
+        · exact hj.auction.sellDenomOk
+    have h1 := hb.bidder
+    have h2 := hb.price
+    have h3 := hb.amt
+    simp [validCoin, hd, h1, h2, h3, Int.le_of_lt h3]
+  · -- auctions: no duplicates
+    rw [List.map_map, List.Nodup, List.pairwise_map]
+    exact hpw.imp (by intro a b hab; simp only [Function.comp]; omega)
+  · -- auctions: valid
+    rw [List.all_eq_true]
+    intro a ha
+    obtain ⟨v, hv, rfl⟩ := List.mem_map.mp ha
+    obtain ⟨j, hj⟩ := hwf v hv
+    exact auction_validate _ hj.auction
+
 /-- the exported genesis of a well-formed state passes `GenesisState.Validate` -/
-theorem export_validates (s : Core) (h : WF s) : validateGenesis (exportGenesis s) = true := by
-  sorry
+theorem export_validates (s : Core) (h : WF s) : validateGenesis (exportGenesis s) = true :=
+  export_validates_aux s h
 
 /-- importing the exported genesis into an empty store rebuilds every collection exactly:
     auctions with their ids, allow-lists, bids with their ids and `BidSeq`, vesting queues,
     and `MatchedBidsLen` (not exported, rebuilt from the flags) -/
-theorem import_export (s : Core) (h : WF s) : initGenesis (exportGenesis s) = some s.views := by
-  sorry
+theorem import_export (s : Core) (h : WF s) : initGenesis (exportGenesis s) = some s.views :=
+  import_export_aux s h
 
 /-- hence the `genesis` operation (export → validate → wipe → import) is the identity on
     well-formed states -/
 theorem reimport_eq (s : Core) (h : WF s) : reimport s = .ok s := by
-  sorry
+  unfold reimport
+  simp only [export_validates s h, import_export s h, Bool.not_true, Bool.false_eq_true, if_false]
+  rfl
 
 end Fundraising
